@@ -142,7 +142,8 @@ def rule_mode(ctx):
     wk = ct.methods['_wakeup']
     adds = [c for c in U.calls(wk.node) if U.method_name(c) == 'add' and norm(c.func.value) == 'self.scheduler']
     ok = bool(adds) and all(norm(c.args[0]) == 'self.clock.beats2secs(self.beats)' for c in adds) and \
-        U.before(full(wk.node), 'self.beats = ', 'self.scheduler.add(self.clock.beats2secs(self.beats), self)')
+        (U.before(full(wk.node), 'self.beats = ', 'self.scheduler.add(self.clock.beats2secs(self.beats), self)') or
+         U.before(full(wk.node), 'self.beats += ', 'self.scheduler.add(self.clock.beats2secs(self.beats), self)'))
     ctx.ob('C10.mode', f'{wk.fq}:requeue-remembers-beat', ok,
            'a re-queued NRT task records its new beat and is queued at beats2secs(that beat), so a later re-key finds it', wk.node, m)
     rk = m.classes['ClockScheduler'].methods.get('rekey')
